@@ -91,8 +91,13 @@ def _discharge_one(ob, budget, smoke_budget, ledger_entry, thorough):
         res['time'] = dt
         return res
     b = budget
+    proved_before = bool(ledger_entry and ledger_entry.get('verdict') == 'unsat')
     if ledger_entry and ledger_entry.get('time'):
         b = min(max(budget, 4 * ledger_entry['time']), 4 * budget)
+    if proved_before and not thorough:
+        # the reference run knows how long this proof takes: 20x that (at least 15 s) is ample even with every core busy, and a proof that does not
+        # come back within it on a changed VC is not going to (keeps a check on a broken tree to minutes)
+        b = min(b, max(15.0, 20 * ledger_entry.get('time', 0)))
     fast = degraded()
     if fast:
         b = min(b, max(8.0, 3 * (ledger_entry or {}).get('time', 0)))
@@ -124,7 +129,7 @@ def _discharge_one(ob, budget, smoke_budget, ledger_entry, thorough):
         with _state_lock: _state['undecided_changed'] += 1           # both solvers gave up on the full VC of a changed obligation
         res['counted'] = True
     fast = fast or degraded()
-    if verdict == 'unknown' and ob.get('focus_path') and not fast:
+    if verdict == 'unknown' and ob.get('focus_path') and not fast and (thorough or not proved_before):
         # sound retry with a SUBSET of the premises (quantifier-free path facts, definitions, hint assertions)
         for sname, variant in (('z3', 'focus'), ('z3', 'nohint'), ('cvc5', 'focus'), ('cvc5', 'nohint')):
             v, dt, extra = (run_z3 if sname == 'z3' else run_cvc5)(ob['focus_path'].replace('.focus.', f'.{variant}.'), b)
@@ -203,7 +208,7 @@ def discharge_all(obs, ledger, budget=30, smoke_budget=2, thorough=False, jobs=N
     retry = [i for i, r in enumerate(results) if r['kind'] != 'smoke' and r['verdict'] not in ('unsat', 'sat') and obs[i].get('path')]
     if retry and len(retry) <= 6 and not degraded():
         with ThreadPoolExecutor(max_workers=2) as pool:
-            futs = {i: pool.submit(portfolio, obs[i], budget * 2) for i in retry}
+            futs = {i: pool.submit(portfolio, obs[i], min(budget * 2, max(30.0, 40 * (ledger.get(obs[i]['name']) or {}).get('time', 0)))) for i in retry}
             for i, f in futs.items():
                 pr = f.result()
                 r = results[i]
